@@ -32,7 +32,13 @@ def gen_case(rng, i):
         R = [1] + [2 * r for r in R[1:-1]] + [1]
         eps = max(eps, 1e-10)
     elif fam == "scaled":        # wildly different scales, moved between cores (non-orthogonal gauge)
-        for k in range(d): cores[k] = cores[k] * 10.0 ** rng.randint(-6, 6)
+        tot = 0
+        for k in range(d):
+            e_ = rng.randint(-6, 6); tot += e_; cores[k] = cores[k] * 10.0 ** e_
+        if dtype in (torch.float32, torch.complex64) and abs(tot) > 12:
+            # single precision: keep the SQUARED norm inside the range of the dtype (1e38): beyond it norm() itself overflows / underflows and the
+            # relative threshold eps*||.|| is inf or 0 - outside the arithmetic, not a rounding question (DESIGN section 11)
+            cores[0] = cores[0] * 10.0 ** (-(tot - (12 if tot > 0 else -12)))
     elif fam == "deficient":     # rank-deficient cores
         for k in range(d - 1):
             if cores[k].shape[-1] > 1: cores[k][..., -1] = cores[k][..., 0]
